@@ -240,7 +240,20 @@ class Lattice(object):
         obj["hist"].append(ev)
         base = self.argv(obj["hist"])
         r1 = H.run_cli(base + ["--list-times", "--list-locations"])
-        r2 = H.run_cli(base + ["-m", "mae", "-x", "no", "-type", "csv"])
+        # the second command receives its subsetting options through --config files (the first half of the options in one
+        # file, the rest in a second one): the selection is a function of the option set, however it is delivered
+        hist = obj["hist"]
+        half = (len(hist) + 1) // 2
+        cfgs = []
+        d = os.path.join(H.scratch(), "c03cfg%d" % os.getpid())
+        os.makedirs(d, exist_ok=True)
+        for k, part in enumerate((hist[:half], hist[half:])):
+            if part:
+                cp = os.path.join(d, "cfg%d.txt" % k)
+                with open(cp, "w") as f:
+                    f.write("\n".join("%s %s" % (o, fmt_list(self.ov[o][v])) for o, v in part) + "\n")
+                cfgs += ["--config", cp]
+        r2 = H.run_cli(self.argv([]) + cfgs + ["-m", "mae", "-x", "no", "-type", "csv"])
         r3 = H.run_cli(base + ["-m", "fcst", "-x", "leadtime", "-type", "csv"])
         return (r1, r2, r3)
 
